@@ -22,6 +22,11 @@ import Rooc.Proofs.RatInst
 import Rooc.Proofs.WFPerm
 import Rooc.Proofs.WFRel2An
 import Rooc.Proofs.RefLemmas
+import Rooc.Proofs.WFOccur
+import Rooc.Proofs.WFCompileOrdered
+import Rooc.Proofs.WFErrKind
+import Rooc.LinErrText
+import Rooc.Gen.LinConsts
 namespace Rooc.Props.C08
 open Rooc Rooc.Lin Rooc.WFDedup Rooc.Lin.Examples
 
@@ -586,5 +591,152 @@ theorem compile_occurring_vars_present {m : Model α} {tol : α} {maxSteps : Nat
 
 example (tol : Ext Rat) : "x" ∈ (assemble exA (Ctx.fromVar "x" Arith.one) exA_final).vars :=
   compile_occurring_vars_present (m := exA) (by decide) (exA_compile tol) "x" (by decide)
+
+/-- … and has a domain entry there: the oracle's clause `WF.occurringPresent` (evaluated on the implementation's output
+for every compiled case — it does not read the usage counters of the source domain, so it also covers a column or a
+domain entry lost by a search in a differently sorted list; harness stream `name-order`: names that differ in letter
+case only, `a B c D`, `x10 x2`, non-ASCII names). -/
+theorem compile_occurring_present {m : Model α} {tol : α} {maxSteps : Nat} {lm : LinModel α}
+    (hd : SourceNodup m = true) (hcl : Ref.Closed m = true) (h : Compile.linearize m tol maxSteps = .ok lm) :
+    WF.occurringPresent m lm = true := by
+  have hok := compile_report_ok_structural hd h
+  simp only [WF.Report.ok, WF.report, Bool.and_eq_true, List.all_eq_true] at hok
+  simp only [WF.occurringPresent, WF.occurring_eq_modelVars, List.all_eq_true, Bool.and_eq_true,
+    List.contains_iff_mem]
+  intro x hx
+  have hv := compile_occurring_vars_present hcl h x hx
+  exact ⟨hv, hok.1.1.1.1.1.1.1.2.1.1 x hv⟩
+
+/-- the order of the variable list is the order of `String` (`<` on the code points = byte order of the UTF-8
+encoding, what `Vec<String>::sort` uses): upper-case letters come before lower-case ones, `x10` before `x2`. -/
+example : WF.sortedStrict ["B", "D", "a", "c", "x10", "x2", "É", "é"] = true := by decide
+
+example (tol : Ext Rat) : WF.occurringPresent exA (assemble exA (Ctx.fromVar "x" Arith.one) exA_final) = true :=
+  compile_occurring_present (by decide) (by decide) (exA_compile tol)
+
+/-! ### 13. every published range is ordered (`lower ≤ upper`) — feasible model or not
+
+§9 excludes `Real(+inf, _)`, `Real(_, −inf)` and NaN ends; here the remaining clause of "domains well-formed":
+`lo ≤ hi` for EVERY entry of the compiled domain.  For the tightened source variables this is a fact about
+`analyze |> enforceable |> apply_to_domain` (C07, agent-bounds: `enforceable_ordered`, plus "the box stays inside
+the declared range" for the `max(lo, 0)` of `NonNegativeReal`); for the `$` auxiliaries it is a third component of
+the state invariant of the lowering (`WFInv.BOK` with the configuration `Lin.ordCfg`): every range of the bounds
+map is ordered, `bounds_of` keeps order, `$abs_k : NonNegativeReal(0, max(−lo, hi))` has `0 ≤ max(−lo, hi)` because
+`lo ≤ hi`.  No feasibility hypothesis (C01's `compile_domains_proper` derives the order from a feasible point). -/
+
+section ordered
+variable {K : Type} [Field K] [LinearOrder K] [IsStrictOrderedRing K] [FloorRing K]
+
+/-- the LOWERING keeps domains ordered. -/
+theorem lowering_keeps_domains_ordered {m : Model (Ext K)} {b : BoundsMap (Ext K)} {d : List (DomVar (Ext K))}
+    {lm : LinModel (Ext K)} (hfin : FiniteLits m = true) (hb : BoundsProper b) (hd : DomainProper d)
+    (hbo : BoundsOrdered b) (hdo : DomainOrdered d)
+    (h : linearizeWith m b d = .ok lm) : DomainOrdered lm.domain :=
+  domain_ordered hfin hb hd hbo hdo h
+
+/-- the WHOLE compiler: distinct declared names, declared ranges proper and ordered (integer ranges within `i32`,
+their type in rooc), finite literals, tolerance `0 ≤ t < 1` (rooc: `1e-9`), any step limit. -/
+theorem compile_domains_ordered {m : Model (Ext K)} {t : K} (h0 : 0 ≤ t) (h1 : t < 1) {maxSteps : Nat}
+    {lm : LinModel (Ext K)} (hnd : (m.domain.map (·.name)).Nodup) (hi : APr.DeclI32 m.domain)
+    (hdecl : DomainProper m.domain) (hord : DomainOrdered m.domain) (hfin : FiniteLits m = true)
+    (h : Compile.linearize m (.fin t) maxSteps = .ok lm) :
+    ∀ v ∈ lm.domain,
+      (∀ lo hi, v.ty = .real lo hi → Ext.le lo hi = true) ∧
+      (∀ lo hi, v.ty = .nnreal lo hi → Ext.le lo hi = true) ∧
+      (∀ lo hi, v.ty = .int lo hi → lo ≤ hi) := by
+  intro v hv
+  have := APr.compile_domain_ordered h0 h1 hnd hi hdecl hord hfin h v hv
+  refine ⟨?_, ?_, ?_⟩ <;> (intro lo hi hty; rw [hty] at this; exact this)
+
+/-- … which is the clause `domain-not-ordered` of the oracle (`WF.domainOrdered`, evaluated on the implementation's
+output for every compiled case whose source has finite literals and ordered declared ranges). -/
+theorem compile_domainOrdered_check {m : Model (Ext K)} {t : K} (h0 : 0 ≤ t) (h1 : t < 1) {maxSteps : Nat}
+    {lm : LinModel (Ext K)} (hnd : (m.domain.map (·.name)).Nodup) (hi : APr.DeclI32 m.domain)
+    (hdecl : DomainProper m.domain) (hord : DomainOrdered m.domain) (hfin : FiniteLits m = true)
+    (h : Compile.linearize m (.fin t) maxSteps = .ok lm) : WF.domainOrdered m lm = true :=
+  APr.domainOrdered_check (APr.compile_domain_ordered h0 h1 hnd hi hdecl hord hfin h)
+
+end ordered
+
+/-- non-vacuity at `ℚ`. -/
+example : ∃ lm : LinModel (Ext ℚ), Compile.linearize exA (.fin 0) 0 = .ok lm ∧ DomainOrdered (K := ℚ) lm.domain := by
+  have hdecl : DomainProper (K := ℚ) exA.domain := by
+    intro v hv
+    simp only [exA, List.mem_singleton] at hv
+    subst hv
+    exact ⟨rfl, by simp [Arith.le, Ext.le, Arith.zero, Arith.ofInt], Or.inr rfl⟩
+  have hord : DomainOrdered (K := ℚ) exA.domain := by
+    intro v hv
+    simp only [exA, List.mem_singleton] at hv
+    subst hv
+    simp [OrdT, Ext.le]
+  have hfin : FiniteLits (α := Ext ℚ) exA = true := by
+    simp [FiniteLits, exA, allLits, Arith.isFinite, Ext.isFinite]
+  have hc := exA_compile (.fin 0)
+  have key := @APr.compile_domain_ordered ℚ _ _ _ _ exA 0 (le_refl _) (by norm_num) 0
+    (assemble exA (Ctx.fromVar "x" Arith.one) exA_final) (by simp [exA]) (by intro d hd lo hi hty; simp [exA] at hd; subst hd; simp at hty)
+    hdecl hord hfin
+  rw [fieldExact_rat] at key
+  exact ⟨_, hc, key hc⟩
+
+/-! ### 14. which errors the compiler can report: `UnimplementedExpression` is dead code
+
+`Exp::linearize` raises `UnimplementedExpression` for the operator-form logic nodes (`BinOp::And | Or | Xor |
+Implies | Iff`, `UnOp::Not`).  Behind `Linearizer::linearize` these two branches are unreachable: every expression
+handed to `Exp::linearize` is a sub-term of the result of `normalize` (`simplify ∘ flatten ∘ simplify`), and `simplify`
+rewrites every operator-form logic node into the n-ary / dedicated node (`Lin.simplify_noOp`, for EVERY input).  The
+proof is an error-kind pass over every action of the lowering (`Proofs/WFErrKind.lean`, `EK Q x`: every error `x` can
+raise satisfies `Q`).  The harness agrees: 0 `err:UnimplementedExpression` in every tier, although the generators do
+produce operator-form nodes (stream `targeted-error`). -/
+
+/-- the lowering never reports `UnimplementedExpression`, for any model, bounds map, domain and number type. -/
+theorem lowering_never_unimplemented (m : Model α) (b : BoundsMap α) (d : List (DomVar α)) :
+    linearizeWith m b d ≠ .error .unimplemented :=
+  linearizeWith_not_unimplemented m b d
+
+/-- the errors of the whole compiler: one of the six other kinds of `LinearizationError` (or the model-only `fuel`). -/
+theorem compile_error_kinds {m : Model α} {tol : α} {maxSteps : Nat} {err : LinErr}
+    (h : Compile.linearize m tol maxSteps = .error err) :
+    err = .nonLinear ∨ err = .divisionByZero ∨ (∃ k, err = .emptyAggregation k) ∨
+      (∃ n, err = .varAlreadyDeclared n) ∨ err = .nonBinaryLogicOperand ∨
+      (∃ vs, err = .missingFiniteBounds vs) ∨ err = .fuel := by
+  cases err with
+  | unimplemented => exact absurd h (compile_not_unimplemented m tol maxSteps)
+  | _ => simp
+
+/-- `simplify` removes the operator-form nodes: `a and b` written with `BinOp::And` becomes the n-ary `And`. -/
+example : NoOp (Exp.simplify (.bin .and (.var "a") (.un .not (.var "b")) : Exp (Ext Rat))) = true :=
+  simplify_noOp _
+
+/-! ### 15. constants of `linearizer.rs` read from the Rust source
+
+`tools/extract.py` re-reads, on every `./check`, (a) the `format!` literal of every name handed to
+`declare_variable` and (b) the `write!` templates of `impl Display for LinearizationError`, and regenerates
+`Rooc/Gen/LinConsts.lean` (it fails loudly when a name is built in any other way).  The theorems below break when
+the Rust source changes one of them; the dynamic side — the model mints the same names and renders the same
+messages — is the bit-exact diff (`linearize`, `linerr-display` requests). -/
+
+/-- every auxiliary name the Rust source can mint begins with `$` (the premise of `aux-name-collision`:
+auxiliaries live in a namespace no identifier of the rooc grammar can reach). -/
+theorem rust_aux_names_dollar_prefixed :
+    Gen.linAuxNameFormats.all (fun s => s.toList.head? == some '$') = true := by decide
+
+/-- the prefixes the model uses for its auxiliaries (`WFInv.isAux_*`) are those of the Rust source. -/
+theorem model_aux_prefixes_are_the_rust_ones :
+    ∀ p ∈ ["$and_", "$or_", "$implies_", "$iff_", "$xor_", "$abs_", "$logic_witness_", "$"],
+      ∃ f ∈ Gen.linAuxNameFormats, p.toList.isPrefixOf f.toList = true := by decide
+
+/-- the message templates of the model (`Lin.LinErr.template`) are the `write!` templates of the Rust source. -/
+theorem error_templates_are_the_rust_ones : Lin.linErrTemplates = Gen.linErrorTemplates := rfl
+
+-- `format!` substitution on the longest template
+set_option maxRecDepth 100000 in
+example : LinErr.text "|x|" "an exact value" "-inf" "inf" (.missingFiniteBounds ["x", "y"]) =
+    "Cannot linearize \"|x|\" in an exact value with derived bounds [-inf, inf]. Variables without finite bounds: x, y. Declare finite bounds or add constraints from which finite bounds can be inferred" := by
+  rfl
+set_option maxRecDepth 100000 in
+example : LinErr.text "e" "r" "l" "u" (.missingFiniteBounds []) =
+    "Cannot linearize \"e\" in r with derived bounds [l, u]. Variables without finite bounds: none identified. Declare finite bounds or add constraints from which finite bounds can be inferred" := by
+  rfl
 
 end Rooc.Props.C08
